@@ -184,7 +184,7 @@ func faultPositions(ep string, items []item) []string {
 func gen(r *prng.R, f proto.Flags, emit func(proto.Case)) {
 	payloads := 90
 	if f.Tier == "thorough" {
-		payloads = 1100
+		payloads = 900
 	}
 	payloads *= f.Budget
 	id := 0
